@@ -20,6 +20,11 @@
 //!   `d<ext>x<count>` for a run of consecutive draws, `pow` (a run of check_leading_zeros calls), `nonce`,
 //!   `ints:<n>:<domain>` (the two halves of draw_integers).
 //!
+//!   ctx <field> <A> <B>      A, B = `mw.aw.ar.log2len.meta.q.b.g.x.f.r` (meta: hex or `-`): two proof contexts;
+//!   output: `Context::to_elements()` of both (canonical integers), compared with `ctxElems` of the Lean model;
+//!   oracle: two DIFFERENT contexts must not seed the coin with the same elements
+//!   (c04.seed.context-collision.<what differs>).
+//!
 //! Oracle (independent of the Lean model; sites):
 //!   c04.prover-verifier-mismatch   the two logs differ (kinds, absorbed bytes, values of used challenges)
 //!                                  after deleting the draws the verifier makes between the last FRI
@@ -471,7 +476,11 @@ fn judge_order(o: &mut Outcome, side: char, obs: &[String], exp: &[String], op_t
     let k = obs.iter().zip(exp.iter()).position(|(a, b)| a != b).unwrap_or(obs.len().min(exp.len()));
     let want = exp.get(k).cloned().unwrap_or_else(|| "end".into());
     let got = obs.get(k).cloned().unwrap_or_else(|| "end".into());
-    if want.starts_with("r:") && obs.contains(&want) {
+    let next_want = exp.get(k + 1).cloned().unwrap_or_default();
+    if want.starts_with('d') && got.starts_with('d') && next_want.starts_with("r:") && obs.contains(&next_want) && !want.ends_with("err") && !got.ends_with("err") {
+        // more draws than the protocol allows before the next message: a challenge was drawn before that message was absorbed
+        o.fails.push((format!("c04.late-absorb.{}.{}", &next_want[2..], side), format!("position {}: {} draws where the protocol has {} before {}: a challenge is drawn before {} is absorbed; observed {}", k, got, want, next_want, next_want, obs.join(","))));
+    } else if want.starts_with("r:") && obs.contains(&want) {
         o.fails.push((format!("c04.late-absorb.{}.{}", &want[2..], side), format!("position {}: protocol order requires {} but {} comes first; observed {}", k, want, got, obs.join(","))));
     } else if got == "r:?" {
         o.fails.push((format!("c04.foreign-absorb.{}", side), format!("position {}: an absorbed digest is not carried in the proof (expected {}); observed {}", k, want, obs.join(","))));
@@ -818,6 +827,170 @@ fn exec_run(t: &[&str]) -> Outcome {
     run_dispatch(&op)
 }
 
+
+// ==================================================================================== ctx op
+#[derive(Clone, Debug, PartialEq, Eq)]
+struct CtxSpec {
+    mw: usize,
+    aw: usize,
+    ar: usize,
+    log_len: u32,
+    meta: Vec<u8>,
+    opts: OptSpec,
+}
+
+fn parse_ctx(s: &str) -> Option<CtxSpec> {
+    let p: Vec<&str> = s.split('.').collect();
+    if p.len() != 11 {
+        return None;
+    }
+    let num = |i: usize| p[i].parse::<u64>().ok().filter(|v| *v <= 1 << 20);
+    let meta = if p[4] == "-" {
+        vec![]
+    } else {
+        if p[4].len() % 2 != 0 || !p[4].bytes().all(|c| c.is_ascii_hexdigit()) {
+            return None;
+        }
+        unhex(p[4])
+    };
+    let c = CtxSpec {
+        mw: num(0)? as usize,
+        aw: num(1)? as usize,
+        ar: num(2)? as usize,
+        log_len: num(3)? as u32,
+        meta,
+        opts: OptSpec::new(num(5)? as usize, num(6)? as usize, num(7)? as u32, num(8)? as u8, num(9)? as usize, num(10)? as usize),
+    };
+    // only what the documented constructor rules accept
+    let ok = c.mw >= 1
+        && c.mw + c.aw <= 255
+        && c.ar <= 255
+        && (c.aw != 0 || c.ar == 0)
+        && (3..=31).contains(&c.log_len)
+        && c.meta.len() <= 64
+        && c.opts.accepted()
+        && ((1u64 << c.log_len) * c.opts.blowup as u64) < (1u64 << 32);
+    if ok {
+        Some(c)
+    } else {
+        None
+    }
+}
+
+fn ctx_text(c: &CtxSpec) -> String {
+    let o = &c.opts;
+    format!("{}.{}.{}.{}.{}.{}.{}.{}.{}.{}.{}", c.mw, c.aw, c.ar, c.log_len, hex(&c.meta), o.queries, o.blowup, o.grinding, o.ext, o.folding, o.remainder)
+}
+
+fn ctx_elems<B: GField>(c: &CtxSpec) -> Vec<u128> {
+    let ti = winter_air::TraceInfo::new_multi_segment(c.mw, c.aw, c.ar, 1usize << c.log_len, c.meta.clone());
+    let ctx = winter_air::proof::Context::new::<B>(ti, c.opts.to_options());
+    ToElements::<B>::to_elements(&ctx).iter().map(|e| e.canon()).collect()
+}
+
+fn exec_ctx(t: &[&str]) -> Outcome {
+    if t.len() != 3 {
+        return Outcome::ok("bad-op");
+    }
+    let (field, a, b) = match (FieldId::parse(t[0]), parse_ctx(t[1]), parse_ctx(t[2])) {
+        (Some(f), Some(a), Some(b)) => (f, a, b),
+        _ => return Outcome::ok("bad-op"),
+    };
+    let (ea, eb) = match field {
+        FieldId::F62 => (ctx_elems::<f62::BaseElement>(&a), ctx_elems::<f62::BaseElement>(&b)),
+        FieldId::F64 => (ctx_elems::<f64::BaseElement>(&a), ctx_elems::<f64::BaseElement>(&b)),
+        FieldId::F128 => (ctx_elems::<f128::BaseElement>(&a), ctx_elems::<f128::BaseElement>(&b)),
+    };
+    let show = |v: &[u128]| v.iter().map(|x| x.to_string()).collect::<Vec<_>>().join(",");
+    let mut o = Outcome::ok(format!("{} {}", show(&ea), show(&eb)));
+    if a != b && ea == eb {
+        let only_meta = (CtxSpec { meta: vec![], ..a.clone() }) == (CtxSpec { meta: vec![], ..b.clone() });
+        let what = if a.meta != b.meta && only_meta {
+            "trace-meta"
+        } else if a.opts != b.opts {
+            "options"
+        } else {
+            "trace-info"
+        };
+        o = o.fail(
+            format!("c04.seed.context-collision.{}", what),
+            format!("the contexts {} and {} differ but Context::to_elements() gives the same seed elements {:?}: the coin does not absorb the difference", ctx_text(&a), ctx_text(&b), ea),
+        );
+    }
+    o
+}
+
+fn random_ctx(rng: &mut Rng) -> CtxSpec {
+    let aw = if rng.chance(1, 2) { 0 } else { rng.range(1, 40) as usize };
+    let mw = rng.range(1, (255 - aw) as u64) as usize;
+    let ar = if aw == 0 { 0 } else { rng.range(0, 255) as usize };
+    let log_len = rng.range(3, 24) as u32;
+    let meta_len = *rng.pick(&[0usize, 0, 0, 1, 2, 6, 7, 8, 14, 15, 16, 17, 30]);
+    let meta = rng.bytes(meta_len);
+    let b = *rng.pick(&[2usize, 4, 8, 16, 32, 64, 128]);
+    let opts = OptSpec::new(rng.range(1, 255) as usize, b, rng.range(0, 32) as u32, rng.range(1, 3) as u8, *rng.pick(&[2usize, 4, 8, 16]), (1usize << rng.below(9)) - 1);
+    CtxSpec { mw, aw, ar, log_len, meta, opts }
+}
+
+/// pairs of contexts differing in exactly one place
+fn gen_ctx_ops(rng: &mut Rng, n: usize, emit: &mut dyn FnMut(String)) {
+    for i in 0..n {
+        let field = *rng.pick(&FieldId::ALL);
+        let a = random_ctx(rng);
+        let mut b = a.clone();
+        match i % 12 {
+            0 => b.mw = if a.mw + a.aw < 255 { a.mw + 1 } else { a.mw - 1 }.max(1),
+            1 => {
+                // auxiliary segment appears / changes
+                if a.aw == 0 {
+                    b.aw = 1;
+                    b.mw = a.mw.min(254);
+                } else {
+                    b.aw = if a.mw + a.aw < 255 { a.aw + 1 } else { a.aw - 1 };
+                    if b.aw == 0 {
+                        b.ar = 0;
+                    }
+                }
+            },
+            2 => {
+                if a.aw > 0 {
+                    b.ar = (a.ar + 1) % 256;
+                } else {
+                    b.log_len = if a.log_len < 24 { a.log_len + 1 } else { a.log_len - 1 };
+                }
+            },
+            3 => b.log_len = if a.log_len < 24 { a.log_len + 1 } else { a.log_len - 1 },
+            4 => b.opts.queries = a.opts.queries % 255 + 1,
+            5 => b.opts.blowup = if a.opts.blowup == 128 { 64 } else { a.opts.blowup * 2 },
+            6 => b.opts.grinding = (a.opts.grinding + 1) % 33,
+            7 => b.opts.ext = a.opts.ext % 3 + 1,
+            8 => b.opts.folding = if a.opts.folding == 16 { 2 } else { a.opts.folding * 2 },
+            9 => b.opts.remainder = if a.opts.remainder == 255 { 0 } else { a.opts.remainder * 2 + 1 },
+            10 => {
+                // metadata: a byte changed, or a non-zero byte appended
+                if a.meta.is_empty() {
+                    b.meta = vec![rng.range(1, 255) as u8];
+                } else if rng.chance(1, 2) {
+                    let k = rng.below(a.meta.len() as u64) as usize;
+                    b.meta[k] ^= 1 << rng.below(8);
+                } else {
+                    b.meta.push(rng.range(1, 255) as u8);
+                }
+            },
+            _ => {
+                // metadata: zero bytes appended (the padding class), also across a chunk boundary
+                let k = rng.range(1, 9) as usize;
+                b.meta.extend(std::iter::repeat(0u8).take(k));
+            },
+        }
+        if parse_ctx(&ctx_text(&b)).is_some() {
+            emit(format!("ctx {} {} {}", field.name(), ctx_text(&a), ctx_text(&b)));
+        }
+    }
+    emit("ctx f64 1.0.0.3.-.1.2.0.1.2.0".into());
+    emit("ctx f64 0.0.0.3.-.1.2.0.1.2.0 1.0.0.3.-.1.2.0.1.2.0".into());
+}
+
 // ==================================================================================== generator
 fn random_opts(rng: &mut Rng, d: &AirDesc, field: FieldId, max_lde: usize, want_layers: Option<usize>) -> OptSpec {
     let n = d.trace_len;
@@ -936,14 +1109,16 @@ impl Prop for P {
     }
 
     fn gen(&self, rng: &mut Rng, tier: Tier, n: usize, emit: &mut dyn FnMut(String)) {
-        let n = default_n(tier, 2500, 25000, n);
+        let n = default_n(tier, 2500, 60000, n);
         gen_ops(rng, tier, n, emit);
+        gen_ctx_ops(rng, n, emit);
     }
 
     fn exec(&self, line: &str) -> Outcome {
         let t: Vec<&str> = line.split(' ').filter(|x| !x.is_empty()).collect();
         match t.first().copied() {
             Some("run") => exec_run(&t[1..]),
+            Some("ctx") => exec_ctx(&t[1..]),
             _ => Outcome::ok("bad-op"),
         }
     }
@@ -953,7 +1128,7 @@ impl Prop for P {
     }
 
     fn nontrivial(&self, _line: &str, out: &str) -> bool {
-        out.starts_with("P ")
+        out.starts_with("P ") || (_line.starts_with("ctx") && out != "bad-op")
     }
 
     fn class(&self, line: &str, out: &str) -> String {
@@ -967,18 +1142,22 @@ impl Prop for P {
             let g = t[14].parse::<u32>().unwrap_or(0);
             let gc = if g == 0 { "g0" } else if g <= 8 { "g1-8" } else { "g9-16" };
             let verdict = if out.starts_with("P ") { "ok" } else { out.split(' ').next().unwrap_or("") };
-            format!("run.{}.{}.x{}.layers{}.{}.{}:{}", t[15], seg, t[13], t[10], gc, t[16], verdict)
+            format!("run.{}.x{}.layers{}.{}:{}", seg, t[13], t[10], gc, verdict)
+        } else if t.first() == Some(&"ctx") && out != "bad-op" && out != "panic" {
+            let mut p = out.split(' ');
+            let same = p.next() == p.next();
+            format!("ctx.{}:{}", t.get(1).unwrap_or(&""), if same { "same-elements" } else { "different-elements" })
         } else {
             format!("{}:{}", t.first().unwrap_or(&""), if out == "panic" { "panic" } else { "bad-op" })
         }
     }
 
     fn rule(&self) -> &'static str {
-        "distinct op lines for which a proof was generated and verified with the recording coin (output starts with `P `): one (description, trace seed, options, field, hasher) tuple each, its prover log and verifier log compared with each other, with the values recomputed from the proof object, with the protocol order, and (by the check) with the Lean scripts; plus the tampering probes on the verifier"
+        "distinct op lines for which a proof was generated and verified with the recording coin (output starts with `P `): one (description, trace seed, options, field, hasher) tuple each, its prover log and verifier log compared with each other, with the values recomputed from the proof object, with the protocol order, and (by the check) with the Lean scripts; plus the tampering probes on the verifier; a ctx op is one pair of proof contexts pushed through Context::to_elements and the Lean model"
     }
 
     fn panic_site(&self, line: &str) -> Option<String> {
-        if line.starts_with("run") {
+        if line.starts_with("run") || line.starts_with("ctx") {
             Some("c04.harness.panic".into())
         } else {
             None
